@@ -400,7 +400,7 @@ impl Prop for C09 {
             let ocfg = ArcCfg { variant: case.cfg.variant.clone(), layers: 0, level: 0, recipients: 0, reader: 0, rng_seed: 0, key_seed: 0 };
             let rep = s.repair(image.clone(), &rcfg, false, &ocfg, &Sched::Full);
             ctx.eval();
-            let plain = ReadCfg { keys: vec![], sched: Sched::Full, budget: u64::MAX / 2, error_at_read: None, spill_path: None, explicit_auth_mode: false };
+            let plain = ReadCfg { keys: vec![], sched: Sched::Full, budget: u64::MAX / 2, error_at_read: None, spill_path: None, explicit_auth_mode: false, replay: None };
             match (&rep.panic, &rep.convert) {
                 (None, Some(Ok(st))) => match read_all(s, &Rc::new(rep.out_image.clone()), &plain) {
                     Ok(files) if files == model.files && st.stop == "EndOfOriginalArchiveData" => {}
